@@ -8,6 +8,7 @@ CONSTANTS
   PoleRots <- QuickRots
   GridSteps = {3, 6, 11, 20}
   DataN = {1, 7, 100, 130}
+  BigDataN = {2000, 4633}
   DataClasses <- AllDataClasses
   Weights <- QuickWeights
 INVARIANT AzTableLemma
